@@ -906,10 +906,11 @@ impl Check for C07 {
         let nops = d.below(8);
         let text = Text::new(case.input());
         let gen_off = |d: &mut Dec| -> usize {
-            match d.weighted(&[8, 1, 1]) {
+            match d.weighted(&[32, 4, 4, 1]) {
                 0 => text.offs[d.below(text.offs.len())],
                 1 => text.byte_len(),
-                _ => text.byte_len() + 1 + d.below(3),
+                2 => text.byte_len() + 1 + d.below(3),
+                _ => *d.pick(&[usize::MAX, usize::MAX - 1, usize::MAX / 2, u32::MAX as usize + 1]),
             }
         };
         for _ in 0..nops {
